@@ -210,9 +210,15 @@ class SpyFuture(Future):
         super(SpyFuture, self).__init__()
         self.tag = tag
         self.cancel_calls = []
+        self.refuse_cancels = 0  # refuse the next n cancel() calls (like a delegate whose cancel can be vetoed)
 
     def cancel(self):
         s = LOG.add("spy.cancel", tag=self.tag)
+        if self.refuse_cancels > 0 and not self.done():
+            self.refuse_cancels -= 1
+            self.cancel_calls.append((s, instr.vnow(), False))
+            LOG.add("spy.cancel.ret", tag=self.tag, value=False, refused=True)
+            return False
         r = super(SpyFuture, self).cancel()
         if r:
             # a delegate executor would notify waiters when it finds the
